@@ -54,6 +54,9 @@ var candidateZones = []string{
 	"America/Sao_Paulo",   // DST starting at midnight (00:00 does not exist)
 	"Europe/Dublin",       // negative DST in tzdata
 	"Pacific/Kiritimati",  // +14
+	// legacy names of the tz database that look like abbreviations: fixed offsets all year (EST is -05:00 in
+	// July too), next to the rule-based names spelled almost alike
+	"EST", "MST", "HST", "EST5EDT", "PST8PDT", "CET", "Japan", "US/Eastern",
 }
 
 type zoneInfo struct {
